@@ -799,6 +799,7 @@ class E_raw:
 # ---------------------------------------------------------------------------------------
 
 _REACHED = [0]
+_REACHED_FN = {}
 
 
 def preload():
@@ -813,12 +814,13 @@ def preload():
             if name.startswith("_") or not callable(fn) or isinstance(fn, type):
                 continue
 
-            def mk(fn):
+            def mk(fn, label):
                 def w(*a, **k):
                     _REACHED[0] += 1
+                    _REACHED_FN[label] = _REACHED_FN.get(label, 0) + 1
                     return fn(*a, **k)
                 return w
-            setattr(mod, name, mk(fn))
+            setattr(mod, name, mk(fn, "%s.%s" % (mod.__name__.replace("c_hydrodiy_", ""), name)))
         mod._verif_wrapped = True
 
 
@@ -882,6 +884,9 @@ def run_unit(unit, ctx):
                 raise
             out = type(e).__name__
         ctx.sup.end()
+        for lab, cnt in list(_REACHED_FN.items()):
+            ctx.count("kernel_calls." + lab, cnt)
+        _REACHED_FN.clear()
         reached = _REACHED[0] > before
         ctx.case(reached, outcome="%s:%s" % (name, out))
         ctx.count("calls.%s" % name)
